@@ -32,7 +32,7 @@ CHECKS = {
         ref="DESIGN.md section 5 C12"),
     "C13": dict(
         technique="Coq proof (unconditional structural facts: an error answer leads to Ret Fault after releasing the lock; lock discipline; goodness for error answers) + fault injection at every file operation (singles and pairs)",
-        text="C13_fault_ends_the_piece and C13_no_lock_leaked hold for every piece with no hypothesis; C13_ops_before_fault_good; the fs shim fails the k-th operation (open, fstat, read, create_dir_all, set_len, seek, write; pairs too) and each faulty run is replayed against the model and checked for confinement, counters and byte correctness. WHOLE RUN (SystemModel/SystemProofs/GlueProofs): the scanning phase is a transition system (pool of piece programs over one shared file system; steps = any program's next action, failed operations, arbitrary read answers, a write cut short); C13_whole_run_other_pieces_unaffected: after any failures every program still in the pool is good.",
+        text="C13_fault_ends_the_piece and C13_no_lock_leaked hold for every piece with no hypothesis; C13_ops_before_fault_good; the fs shim fails the k-th operation (open, fstat, read, create_dir_all, set_len, seek, write; pairs too) and each faulty run is replayed against the model and checked for confinement, counters and byte correctness. WHOLE RUN (SystemModel/SystemProofs/GlueProofs): the scanning phase is a transition system (pool of piece programs over one shared file system; steps = any program's next action, failed operations, arbitrary read answers, a write cut short); C13_whole_run_other_pieces_unaffected: after any failures every program still in the pool is good. C13_failure_elsewhere_costs_nothing: with every OTHER program free to fault or be cut, a piece that stays available can still only return Success and is then in place (rely/guarantee, CompleteProofs.v).",
         ref="DESIGN.md section 5 C13"),
     "C14": dict(
         technique="Coq proof (prelude program evaluated against an arbitrary probe-answer function: abort with no mutation on any over-long file; exactly the shorter files extended to the declared length; no mutation without the flag) + pre-flight oracle + prelude trace validation",
